@@ -48,7 +48,9 @@ HmS(n, t) == [k |-> "HmS", n |-> n, t |-> t]  \* Hashmap n T whose n-bit keys th
 Lite(t) == [k |-> "Lite", t |-> t]            \* same encoding as t; the value generator does not expand variations below it (t is varied on its own)
 HmAug(n, t, x) == [k |-> "HmAug", n |-> n, t |-> t, x |-> x]   \* HashmapAug n T X (non-empty, inline); value [es |-> entries [k, v, x], post |-> <<>> or the extras read]
 F(name, t) == [name |-> name, t |-> t]
-Alt(cn, tag, fs) == [c |-> cn, tag |-> tag, fs |-> fs]
+Alt(cn, tag, fs) == [c |-> cn, tag |-> tag, fs |-> fs, cons |-> <<>>]
+\* an alternative with { a <= b } constraints between two of its fixed-width fields: cons is a sequence of <<a, b>> field-name pairs
+AltC(cn, tag, fs, cons) == [c |-> cn, tag |-> tag, fs |-> fs, cons |-> cons]
 
 IsPrefixOf(a, b) == Len(a) <= Len(b) /\ SubSeq(b, 1, Len(a)) = a
 ByteBits(bs) == BytesToBits(bs)
@@ -215,12 +217,15 @@ AllZero(bits) == \A i \in 1..Len(bits) : bits[i] = 0
 RECURSIVE BitsLeq(_, _)
 BitsLeq(a, b) == IF a = <<>> THEN TRUE ELSE IF a[1] # b[1] THEN a[1] < b[1] ELSE BitsLeq(Tail(a), Tail(b))
 RECURSIVE DecT(_, _, _), DecDict(_, _, _, _), DecAug(_, _, _, _)
-DecFields(a, sl0) ==
+ConsOk(a, v) == \A i \in 1..Len(a.cons) : BitsLeq(v[a.cons[i][1]], v[a.cons[i][2]])
+DecFieldsRaw(a, sl0) ==
     FoldLeft(LAMBDA acc, f :
                 IF ~acc.ok THEN acc
                 ELSE LET d == DecT(f.t, acc.sl, acc.v) IN
                      IF ~d.ok THEN Bad ELSE Good(acc.v @@ (f.name :> d.v), d.sl),
              Good(("c" :> a.c), sl0), a.fs)
+DecFields(a, sl0) ==
+    LET d == DecFieldsRaw(a, sl0) IN IF d.ok /\ ConsOk(a, d.v) THEN d ELSE Bad
 DecT(t, sl, ctx) ==
     CASE t.k \in {"U", "I", "Bits", "One"} -> DecBits(sl, t.n)
       [] t.k = "Bool" -> DecBits(sl, 1)
